@@ -28,6 +28,10 @@ class MachineryError(Exception):
     pass
 
 
+import threading
+_LOCK = threading.Lock()
+
+
 def log(*a):
     print(*a, flush=True)
 
@@ -248,15 +252,29 @@ class Run:
         if not accepted and hwm == n + 1:
             raise MachineryError("trace consumed but TLC reported an error:\n" + tail(r["out"], 50))
         if "distinct" in r:
-            self.trace_states += r["distinct"]
+            with _LOCK:
+                self.trace_states += r["distinct"]
         return accepted, hwm, n, r
 
     # --------------------------------------------------- validate with triage
     def validate(self, outdir, meta, dfs=False, max_findings=8, timeout=1800):
         """Validate every trace a driver wrote.  A rejected history is re-generated
         and re-judged; if it reproduces it becomes a VIOLATION with a replay file;
-        the remainder of the trace is still checked."""
-        for job in meta.get("jobs", []):
+        the remainder of the trace is still checked.  The first pass over several
+        trace files runs in parallel (one TLC each); triage is sequential."""
+        jobs = [j for j in meta.get("jobs", []) if os.path.getsize(os.path.join(outdir, j["trace"])) > 0]
+        first = {}
+        if len(jobs) > 1 and not os.environ.get("VERIF_SERIAL"):
+            from concurrent.futures import ThreadPoolExecutor
+            def one(job):
+                try:
+                    return job["trace"], self.validate_file(job["spec"], os.path.join(outdir, job["trace"]), dfs=dfs, timeout=timeout)
+                except MachineryError as ex:
+                    return job["trace"], ex
+            with ThreadPoolExecutor(max_workers=max(1, min(6, NCPU // 3))) as pool:
+                for name, res in pool.map(one, jobs):
+                    first[name] = res
+        for job in jobs:
             path = os.path.join(outdir, job["trace"])
             spec = job["spec"]
             lines = open(path).read().splitlines()
@@ -265,9 +283,15 @@ class Run:
             nhist = sum(1 for x in lines if x.startswith('{"case"') or '"ev":"Reset"' in x[:200])
             found = 0
             while True:
-                cur = os.path.join(outdir, "_cur_" + job["trace"])
-                open(cur, "w").write("\n".join(lines) + "\n")
-                acc, hwm, n, r = self.validate_file(spec, cur, dfs=dfs, timeout=timeout)
+                if found == 0 and job["trace"] in first:
+                    res = first.pop(job["trace"])
+                    if isinstance(res, MachineryError):
+                        raise res
+                    acc, hwm, n, r = res
+                else:
+                    cur = os.path.join(outdir, "_cur_" + job["trace"])
+                    open(cur, "w").write("\n".join(lines) + "\n")
+                    acc, hwm, n, r = self.validate_file(spec, cur, dfs=dfs, timeout=timeout)
                 if acc:
                     break
                 # localise: history containing line hwm (1-based)
